@@ -117,6 +117,23 @@ def sk_id(Rk):
                     yield mk("id", [[ax(n) for n in i1], [ax(n) for n in i2]], [[ax(n) for n in p1], [ax(n) for n in p2]])
 
 
+def sk_id_blocks():
+    """two concatenations in one tensor: block-matrix assembly / splitting (inputs and outputs are paired with the blocks in row-major order)"""
+    A, B, C, D = ax("a"), ax("b"), ax("c"), ax("d")
+    cat1, cat2 = ("c", (A, B)), ("c", (C, D))
+    blocks = [[A, C], [A, D], [B, C], [B, D]]
+    yield mk("id", blocks, [[cat1, cat2]])
+    yield mk("id", [[cat1, cat2]], blocks, env={"a": 2, "c": 3})
+    yield mk("id", [[C, A], [D, A], [C, B], [D, B]], [[cat1, cat2]])
+    yield mk("id", [[A, C], [B, C], [A, D], [B, D]], [[cat2, cat1]])
+    yield mk("id", [[A, ax("m"), C], [A, ax("m"), D], [B, ax("m"), C], [B, ax("m"), D]], [[cat1, ax("m"), cat2]])
+    yield mk("id", [[cat1, ax("m"), cat2]], [[A, C, ax("m")], [A, D, ax("m")], [B, C, ax("m")], [B, D, ax("m")]], env={"a": 2, "c": 3})
+    # three-way concatenation and a concatenation with a flattened term
+    yield mk("id", [[A], [B], [C]], [[("c", (A, B, C))]])
+    yield mk("id", [[A, C], [B]], [[("c", (("g", (A, C)), B))]])
+    yield mk("id", [[("c", (("g", (A, C)), B))]], [[C, A], [B]], env={"a": 2, "c": 3})
+
+
 def sk_reduce(Rk, op="sum"):
     for inp in canon_seqs(Rk, minrank=1):
         n = len(inp)
@@ -241,10 +258,19 @@ def sk_update_at(Rk, op="add_at"):
                 cvec = list(dict.fromkeys(x for c in coords for x in names_of(c)))
                 allv = list(dict.fromkeys(tvec + cvec))
                 # update expression: every subset of the vectorised axes in canonical and reversed order
+                # output: the target expression itself, or a permutation of its items that keeps the bracketed items in order (at most two of them)
+                outs = [titems]
+                for p in itertools.permutations(range(n)):
+                    if list(p) != list(range(n)) and [i for i in p if i in marked] == sorted(marked):
+                        outs.append([titems[i] for i in p])
+                outs = [outs[0]] + outs[1:][::max(1, (len(outs) - 1) // 2)][:2]
                 for k in range(0, len(allv) + 1):
                     for sub in itertools.combinations(allv, k):
                         for order in ({tuple(sub), tuple(sub[::-1])}):
-                            yield mk(op, [titems] + coords + [[ax(x) for x in order]], [titems])
+                            for oi, out in enumerate(outs):
+                                if oi > 0 and (k not in (0, len(allv)) or order != tuple(sub)):
+                                    continue        # permuted outputs only with the smallest and the largest update expression
+                                yield mk(op, [titems] + coords + [[ax(x) for x in order]], [out])
 
 
 FAMILY_OPS = {
@@ -265,7 +291,7 @@ BINARY = {"subtract", "true_divide", "floor_divide", "divide", "less", "less_equ
 def skeletons(op, Rk):
     fam = OP_FAMILY[op]
     if fam == "id":
-        return sk_id(Rk)
+        return itertools.chain(sk_id(Rk), sk_id_blocks())
     if fam == "reduce":
         return sk_reduce(Rk, op)
     if fam == "elementwise":
